@@ -36,7 +36,7 @@ Definition render (ls : list conf_line) : str := flat_map (fun l => line_text l 
 Fixpoint file_lookup (key : str) (ls : list conf_line) : option str :=
   match ls with
   | [] => None
-  | Entry k _ _ _ v _ :: r => if str_eqb (lower k) (lower key) then Some v else file_lookup key r
+  | Entry k _ _ _ v _ :: r => if str_eqb (lower key) (lower k) then Some v else file_lookup key r
   | _ :: r => file_lookup key r
   end.
 
